@@ -1,12 +1,22 @@
 use vstd::prelude::*;
 use crate::Database;
 use crate::ffi;
-use crate::rodbus::{ExceptionCode, Indexed, UnitId};
+use crate::rodbus::{ExceptionCode, Indexed, UnitId, WriteCoils, WriteRegisters};
 use crate::helpers::ext::spec_write_result;
 
 //@item rodbus/src/server/handler.rs | Authorization
 
 //@item ffi/rodbus-ffi/src/server.rs | RequestHandlerWrapper
+//@item ffi/rodbus-ffi/src/iterator.rs | BitValueIterator
+//@item ffi/rodbus-ffi/src/iterator.rs | RegisterValueIterator
+impl<'a> BitValueIterator<'a> {
+//@fn ffi/rodbus-ffi/src/iterator.rs | BitValueIterator<'a>::new | tags=C18
+//@|    ensures r.inner == inner,
+}
+impl<'a> RegisterValueIterator<'a> {
+//@fn ffi/rodbus-ffi/src/iterator.rs | RegisterValueIterator<'a>::new | tags=C18
+//@|    ensures r.inner == inner,
+}
 
 // (the rodbus RequestHandler trait as the FFI crate implements it; the ghost-log form of the trait is used in the server units)
 pub trait RequestHandler {
@@ -16,6 +26,8 @@ pub trait RequestHandler {
     fn read_input_register(&self, address: u16) -> Result<u16, ExceptionCode>;
     fn write_single_coil(&mut self, value: Indexed<bool>) -> Result<(), ExceptionCode>;
     fn write_single_register(&mut self, value: Indexed<u16>) -> Result<(), ExceptionCode>;
+    fn write_multiple_coils(&mut self, values: WriteCoils) -> Result<(), ExceptionCode>;
+    fn write_multiple_registers(&mut self, values: WriteRegisters) -> Result<(), ExceptionCode>;
 }
 
 impl RequestHandler for RequestHandlerWrapper {
@@ -35,6 +47,13 @@ impl RequestHandler for RequestHandlerWrapper {
 //@|        && r == (match x { Some(w) => spec_write_result(w), None => Err::<(), ExceptionCode>(ExceptionCode::IllegalFunction) }),
 //@fn ffi/rodbus-ffi/src/server.rs | RequestHandler for RequestHandlerWrapper::write_single_register | tags=C18
 //@|    ensures exists|x: Option<ffi::WriteResult>| #[trigger] old(self).write_handler.may_write_single_register(value.index, value.value, x)
+//@|        && r == (match x { Some(w) => spec_write_result(w), None => Err::<(), ExceptionCode>(ExceptionCode::IllegalFunction) }),
+// all four write functions: the multiple-write callbacks get the request's start address and an iterator over exactly its values
+//@fn ffi/rodbus-ffi/src/server.rs | RequestHandler for RequestHandlerWrapper::write_multiple_coils | tags=C18
+//@|    ensures exists|x: Option<ffi::WriteResult>| #[trigger] old(self).write_handler.may_write_multiple_coils(values.range.start, values.iterator, x)
+//@|        && r == (match x { Some(w) => spec_write_result(w), None => Err::<(), ExceptionCode>(ExceptionCode::IllegalFunction) }),
+//@fn ffi/rodbus-ffi/src/server.rs | RequestHandler for RequestHandlerWrapper::write_multiple_registers | tags=C18
+//@|    ensures exists|x: Option<ffi::WriteResult>| #[trigger] old(self).write_handler.may_write_multiple_registers(values.range.start, values.iterator, x)
 //@|        && r == (match x { Some(w) => spec_write_result(w), None => Err::<(), ExceptionCode>(ExceptionCode::IllegalFunction) }),
 }
 //@include frag/ffi_server_create.tpl
